@@ -29,7 +29,9 @@ function = code written out; `DV(n, K(0))`'s own `size()` is `n`; `cls.def(..).d
 captures.  Whatever remains different reaches Lean, whose proofs (`omega`, case splits) are insensitive to the order and
 spelling of tests, e.g. one combined range test followed by a conditional shift.  Anything outside the grammar -- a loop that
 is no counting loop, `FV v{K(0)}` (initializer list!), a pointer that is advanced, an unsigned index parameter, another
-exception type, an unknown `cls.def` form -- raises TranslateError: never guessed.  `--selftest` replays respellings that must
+exception type, an unknown `cls.def` form -- raises TranslateError: never guessed.  Arithmetic is translated in exact
+integers (values far inside the ranges) except the stride of the buffer constructor, where the signed / unsigned conversions
+are kept (`tr_stride`): the unsigned division repaired by 5a41cb5 gives a term `gen_buffer_ctor` refutes.  `--selftest` replays respellings that must
 stay quiet and edits that must not."""
 import os
 import re
